@@ -64,7 +64,8 @@ RULE = ('pool histories of 1-12 calls (quick) / up to 60 (thorough) over insert_
         'swap, reparam (both conventions), split, Curve.append, make_periodic, lower_periodic, the affine family incl. operator '
         'forms, section, extrude, clone, make_splines_identical; start objects: pardim 1-3, dim 1-3, rational (positive weights) or not, open and '
         'periodic directions of order 1-4; symbolic knot/split values resolved against the current state; constructor stream: '
-        'valid open/periodic, decreasing, too few, order<=0, periodic mismatch, within/beyond tolerance, accepted-but-not-periodic. '
+        'valid open/periodic, decreasing, too few, order<=0, periodic mismatch, within/beyond tolerance, accepted-but-not-periodic, '
+        'sorted vectors with positive spans of 1e-11..9e-11 (first/interior/last knots, clamped or not, runs, vectors scaled to a tiny domain as reparam does): accepted, stored knots = input exactly. '
         'distinct = distinct protocol lines; non-trivial = at least one call of the history completed (constructor cases: all). '
         'Comparison: counts, orders, periodicity, shapes, accessor structure and wf verdicts exactly; knots to 1e-12 of the knot '
         'magnitude - widened, only for objects whose LINEAGE passed through a knot magnitude whose double resolution exceeds that '
@@ -77,7 +78,7 @@ REQUIRED_TAGS = ['op=insert', 'op=refine', 'op=raise', 'op=lower', 'op=reverse',
                  'op=split', 'op=append', 'op=makeper', 'op=lowerper', 'op=affine', 'op=section', 'op=extrude', 'op=clone', 'op=identical',
                  'pardim=1', 'pardim=2', 'pardim=3', 'rational', 'periodic-dir', 'len>=8', 'pool>=3', 'err:ValueError',
                  'ctor=valid-open', 'ctor=valid-periodic', 'ctor=decreasing', 'ctor=too-few', 'ctor=order<=0',
-                 'ctor=periodic-mismatch', 'ctor=within-tol', 'ctor=beyond-tol', 'ctor=gap', 'ctor=short-periodic', 'ctor=wide-periodic', 'ctor=tol-inversion',
+                 'ctor=periodic-mismatch', 'ctor=within-tol', 'ctor=beyond-tol', 'ctor=gap', 'ctor=short-periodic', 'ctor=wide-periodic', 'ctor=tol-inversion', 'ctor=narrow-span', 'narrow-span:interior', 'narrow-span:unclamped-ends', 'narrow-span:reparam',
                  'ctor-eval=in-process', 'wf=true',
                  'stream=small-periodic', 'small-periodic:n<p+k', 'small-periodic:n+1<=p+k', 'small-periodic-op=insert',
                  'small-periodic-op=split', 'small-periodic-op=lowerper', 'small-periodic-op=reverse', 'flag=periodic-small-basis-geometry',
@@ -1093,6 +1094,58 @@ def _ctor_cases(rng, n):
         ts = sorted({kn2[j - 1], kn2[j], kn[min(j + 1, m - 1)], a, e, 0.5 * (a + e), 0.5 * (kn2[j - 1] + kn[min(j + 1, m - 1)])})
         out[-1]['eval'] = [t for t in ts if a <= t <= e] or [0.5 * (a + e)]
         out[-1]['where'] = where
+    # POSITIVE spans narrower than the tolerance (1e-11 .. 9e-11): a sorted vector is accepted and stored AS IS - the
+    # clean-up of the constructor removes decreases only, it must not merge distinct knots (seeded change C19_8).
+    # Positions: inside the first p knots (unclamped), interior, inside the last p knots; clamped and unclamped; several
+    # narrow spans in a row; and whole vectors scaled to a tiny domain the way reparam() does it (normalise, scale, shift).
+    def narrow(p, kn, how):
+        kn = [float(x) for x in kn]
+        m = len(kn)
+        if m < 2 * p or any(kn[x + 1] < kn[x] for x in range(m - 1)) or not kn[p - 1] < kn[m - p]:
+            return
+        if not any(0 < kn[x + 1] - kn[x] < TOL for x in range(m - 1)):
+            return
+        add('narrow-span', p, kn, -1, 'accept')
+        out[-1]['how'] = how
+    narrow(3, [0, 0, 0, 0.5, 0.5 + 3e-11, 1, 1, 1], 'interior')
+    narrow(2, [0, 5e-11, 1, 1 + 5e-11], 'unclamped-ends')
+    narrow(3, [0, 1e-11, 2e-11, 1, 2, 2 + 9e-11, 2 + 1.8e-10], 'unclamped-ends')
+    narrow(3, ((np.array([0, 0, 0, 1, 2, 3, 4, 4, 4], dtype=float) - 0.0) / 4.0 * 1e-10 + 0.0).tolist(), 'reparam')   # reparam(0, 1e-10)
+    for rep in range(12 if n <= 300 else 40):
+        p = rng.randint(1, 4)
+        clamped = rng.random() < 0.5
+        b = gen.open_basis(rng, p, n_interior=rng.randint(1, 4), clamped=clamped)
+        kn = [float(x) for x in b['knots']]
+        m = len(kn)
+        how = rng.choice(['interior', 'first', 'last', 'run', 'reparam'])
+        if how == 'reparam':
+            # reparam(start, end) of the basis: knots -= knots[0]... normalise to the domain, scale, shift (in place,
+            # no constructor call); the vector then goes through the constructor (re-construction, file readers)
+            a, e = kn[p - 1], kn[m - p]
+            s0 = rng.choice([0.0, 1.0, -2.0])
+            width = rng.choice([1e-10, 3e-10, 1e-9, 5e-11])
+            arr = (np.array(kn) - a) / (e - a)
+            arr = arr * ((s0 + width) - s0) + s0
+            narrow(p, arr.tolist(), 'reparam')
+            continue
+        d = rng.choice([1e-11, 2e-11, 5e-11, 9e-11])
+        if how == 'interior':
+            j = rng.randint(p, m - p)
+        elif how == 'first':
+            j = rng.randint(1, max(1, p - 1))
+        elif how == 'last':
+            j = rng.randint(max(1, m - p), m - 1)
+        else:
+            j = rng.randint(1, m - 1)
+        cnt = rng.randint(2, 3) if how == 'run' else 1
+        kn2 = list(kn)
+        for q in range(cnt):
+            if j + q < m:
+                # a new distinct value d above the predecessor; everything behind is pushed up if necessary
+                kn2[j + q] = kn2[j + q - 1] + d
+        for x in range(j + cnt, m):
+            kn2[x] = max(kn2[x], kn2[x - 1])
+        narrow(p, kn2, how)
     for p, k in [(2, 1), (3, 2), (2, 3), (3, 4), (1, 0), (4, 3)]:
         m = p + k + 1 + rng.randint(0, 3)
         m = max(m, 2 * p)
@@ -1658,6 +1711,13 @@ def _ctor_oracle(sp, s):
         if bad:
             pre.append('constructor accepted order %d, knots %r, periodic %d and stores a knot vector that is not non-decreasing '
                        '(knots[%d] = %r > knots[%d] = %r)' % (p, kn, k, bad[0], st[bad[0]], bad[0] + 1, st[bad[0] + 1]))
+        cm = [float(x) for x in np.maximum.accumulate(np.array([float(x) for x in kn]))] if len(kn) else []
+        if not bad and st != cm:
+            q = next((i for i in range(min(len(st), len(cm))) if st[i] != cm[i]), min(len(st), len(cm)))
+            pre.append('constructor accepted order %d, knots %r, periodic %d but stores a DIFFERENT vector: knots[%d] = %r, '
+                       'running maximum of the input (the input itself where it is sorted) has %r%s' % (
+                           p, kn, k, q, st[q] if q < len(st) else None, cm[q] if q < len(cm) else None,
+                           ' - distinct knots %.3g apart were merged' % (cm[q] - cm[q - 1]) if 0 < q < len(cm) and st[q] == st[q - 1] else ''))
         if s.get('eval'):
             try:
                 ev = _ctor_eval(sp, s)
@@ -1821,6 +1881,8 @@ def tags(s, res):
             t.append('ctor-eval=' + iv['how'])
         if s.get('where'):
             t.append('tol-inversion:' + s['where'])
+        if s.get('how') and s['cls'] == 'narrow-span':
+            t.append('narrow-span:' + s['how'])
         return t
     t = set()
     iv = res['impl']
